@@ -321,6 +321,15 @@ pub fn def(ctx: &Ctx) -> PropDef {
         },
         check_jit,
     ));
+    // JitterRng::new() over the real platform clock: whatever the clock does on this machine,
+    // the constructor (test_timer + set_rounds + one collection) returns Ok or Err, never panics
+    subs.push(crate::engine::ESub::boxed("jitter/new-real-clock", 5, || vec![0u8, 1, 2], |_k: &u8| {
+        match catch(|| rand_jitter::JitterRng::new().map(|mut g| { use rand_core::RngCore; g.next_u32() })) {
+            Caught::Ok(r) => Ok(CaseInfo::new(true).class(if r.is_ok() { "new:Ok" } else { "new:Err" })),
+            Caught::Panic(rec) => Err(Fail::new(panic_signature(&rec), format!("JitterRng::new() panicked: {}", rec))),
+            Caught::Budget => Ok(CaseInfo::new(false)),
+        }
+    }));
     // timer_stats on boundary pairs of readings (every power of two, +-1, negated, wrap-around)
     subs.push(PSub::boxed("jitter/timer_stats-pairs", t.pick(20_000, 2_000_000), crate::props::c12::stats_strategy, |c: &crate::props::c12::StatsCase| {
         crate::props::c12::check_stats(c).map(|i| CaseInfo::new(true).class(i.classes.first().cloned().unwrap_or_default()))
